@@ -393,7 +393,7 @@ class SimpleProcessTensor(BaseProcessTensor):
             ten = tn.Node(self._mpo_tensors[step])
 
             if len(ten.shape) == 3:
-                trace_square = tn.Node(self._trace_in * self._trace_out)
+                trace_square = tn.Node(self._trace_square)
                 ten[1] ^ last_cap[0]
                 ten[2] ^ trace_square[0]
                 new_cap = ten @ last_cap @ trace_square
@@ -793,7 +793,7 @@ class FileProcessTensor(BaseProcessTensor):
             trace_out = tn.Node(self._trace_out)
             ten = tn.Node(self.get_mpo_tensor(step, transformed=False))
             if len(ten.shape) == 3:
-                trace_square = tn.Node(self._trace_in * self._trace_out)
+                trace_square = tn.Node(self._trace_square)
                 ten[1] ^ last_cap[0]
                 ten[2] ^ trace_square[0]
                 new_cap = ten @ last_cap @ trace_square
